@@ -65,6 +65,10 @@ type jcase struct {
 	Seed   int64
 	Shape  string
 	Rates  []int
+	// StepsS: by how many seconds the time stamp of a call advances to the next call (cyclic; 0 = the
+	// same instant again, negative = a clock stepped back); empty = one second per tick. The property
+	// is about the sequence of calls, whatever their stamps.
+	StepsS []int
 }
 
 func (c jcase) key() string {
@@ -78,6 +82,10 @@ func (c jcase) key() string {
 		binary.LittleEndian.PutUint64(b[:], uint64(r))
 		h.Write(b[:])
 	}
+	for _, r := range c.StepsS {
+		binary.LittleEndian.PutUint64(b[:], uint64(r)+0x5bd1e995)
+		h.Write(b[:])
+	}
 	return fmt.Sprintf("%d:%016x", len(c.Rates), h.Sum64())
 }
 
@@ -88,7 +96,7 @@ func (c jcase) String() string {
 		head = head[:40]
 		suffix = fmt.Sprintf(" ...(%d more)", len(c.Rates)-40)
 	}
-	return fmt.Sprintf("jitter=%v seed=%d shape=%s len=%d rates=%v%s", c.Jitter, c.Seed, c.Shape, len(c.Rates), head, suffix)
+	return fmt.Sprintf("jitter=%v seed=%d shape=%s len=%d rates=%v%s timestamp-steps-s=%v", c.Jitter, c.Seed, c.Shape, len(c.Rates), head, suffix, c.StepsS)
 }
 
 // ---- oracle ---------------------------------------------------------------------------
@@ -188,9 +196,9 @@ func judge(jitter float64, rates, outs []int) verdict {
 
 // ---- running the real code ------------------------------------------------------------
 
-// runReal wraps a scripted rate function (tick i is asked at t0 + i seconds and
-// answers by the time it is given, so the wrapper may call it as often as it
-// likes) and collects one output per tick.
+// runReal wraps a scripted rate function (it answers with the rate of the tick in
+// progress and checks that it is asked about that tick's time stamp, so the wrapper
+// may call it as often as it likes) and collects one output per tick.
 func runReal(c jcase) (outs []int, msg string) {
 	defer func() {
 		if r := recover(); r != nil {
@@ -200,24 +208,29 @@ func runReal(c jcase) (outs []int, msg string) {
 	//nolint:staticcheck // effective: the harness module declares go 1.23
 	rand.Seed(c.Seed)
 	bad := ""
+	cur, stamp := 0, t0 // the tick in progress and the time it is asked at
 	rateFn := func(now time.Time) int {
-		d := now.Sub(t0)
-		i := int(d / time.Second)
-		if d < 0 || d%time.Second != 0 || i >= len(c.Rates) {
+		if !now.Equal(stamp) {
 			if bad == "" {
-				bad = fmt.Sprintf("rate function asked for time %v which is not the tick time it was called with", now)
+				bad = fmt.Sprintf("rate function asked for time %v which is not the tick time %v it was called with", now, stamp)
 			}
 			return 0
 		}
-		return c.Rates[i]
+		return c.Rates[cur]
 	}
 	fn := api.WithJitter(rateFn, c.Jitter)
 	outs = make([]int, 0, len(c.Rates))
 	for i := range c.Rates {
-		outs = append(outs, fn(t0.Add(time.Duration(i)*time.Second)))
+		cur = i
+		outs = append(outs, fn(stamp))
 		if bad != "" {
 			return outs, bad
 		}
+		step := 1
+		if len(c.StepsS) > 0 {
+			step = c.StepsS[i%len(c.StepsS)]
+		}
+		stamp = stamp.Add(time.Duration(step) * time.Second)
 	}
 	return outs, ""
 }
@@ -236,6 +249,9 @@ func nontrivial(c jcase, v verdict) bool {
 
 func record(section string, c jcase, v verdict) {
 	cls := []string{"shape-" + c.Shape}
+	if len(c.StepsS) > 0 {
+		cls = append(cls, "unpunctual-timestamps")
+	}
 	nt := nontrivial(c, v)
 	if nt {
 		cls = append(cls, "nontrivial")
@@ -468,6 +484,9 @@ func genCase(t *rapid.T) jcase {
 	c.Jitter = genJitter(t)
 	c.Rates, c.Shape = genRates(t)
 	c.Seed = rapid.Int64().Draw(t, "randSeed")
+	if rapid.IntRange(0, 3).Draw(t, "unpunctual") == 0 {
+		c.StepsS = rapid.SliceOfN(rapid.SampledFrom([]int{0, 0, 1, 1, 1, 2, 60, -1}), 1, 6).Draw(t, "timestampSteps")
+	}
 	return c
 }
 
